@@ -316,6 +316,373 @@ func minInt(a, b int) int {
 	return b
 }
 
+// ---------------------------------------------------------------- one path entry, several hosts
+
+// c12SharedHosts: the hosts the clients of the shared-path histories ask for; the front
+// conditions below accept different subsets of them.
+var c12SharedHosts = []string{"a.com", "b.com", "a.co", "x.a.com", "c.org"}
+
+// c12FrontConds: host conditions of the rules that lie in front of the rule owning the
+// shared entries; each accepts some of c12SharedHosts and not others.
+var c12FrontConds = []gRule{
+	{Host: "a.com"}, {Host: "b.com"}, {Host: "x.a.com"}, {Host: "a.co"},
+	{HostRegexp: `^a\.`}, {HostRegexp: `\.com$`}, {HostRegexp: `^[a-z]+\.a\.com$`}, {HostRegexp: `^(a|b)\.com$`},
+	{Host: "c.org", HostRegexp: `^x\.`}, {HostRegexp: `\.(co|org)$`},
+}
+
+// c12SplitFilter: a filter that admits some of the generated clients and refuses others.
+func c12SplitFilter(rng *rand.Rand) *gIPF {
+	nets := genNets[:len(genNets)-1] // without 0.0.0.0/0
+	f := &gIPF{BlockByDefault: rng.Intn(2) == 0}
+	l := []string{pick(rng, nets)}
+	if rng.Intn(2) == 0 {
+		l = appendUniq(l, pick(rng, nets))
+	}
+	if f.BlockByDefault {
+		f.Allow = l
+	} else {
+		f.Block = l
+	}
+	return f
+}
+
+// c12SharedPathSpec: 1-3 front rules with host conditions that accept different subsets of
+// the hosts, a third of them without and two thirds with a rule-level IP filter, whose entries
+// mostly lie outside the paths the later rule serves (sometimes a method- or header-conditioned
+// entry, sometimes an own entry inside that vocabulary); then one rule with a wide host
+// condition (catch-all or a wide regexp) that owns 2-3 header-less entries; sometimes a
+// catch-all rule behind it and a server-level filter.  Requests of different hosts therefore
+// reach the SAME entry of the wide rule after walking through DIFFERENT earlier rules.
+func c12SharedPathSpec(rng *rand.Rand) *gSpec {
+	s := &gSpec{}
+	n := 0
+	be := func() string { n++; return fmt.Sprintf("be-%d", n-1) }
+	optFilter := func(oneIn int) *gIPF {
+		if rng.Intn(oneIn) != 0 {
+			return nil
+		}
+		if rng.Intn(3) == 0 {
+			return genIPF(rng)
+		}
+		return c12SplitFilter(rng)
+	}
+	nFront := 1 + rng.Intn(3)
+	for i := 0; i < nFront; i++ {
+		c := c12FrontConds[rng.Intn(len(c12FrontConds))]
+		ru := gRule{Host: c.Host, HostRegexp: c.HostRegexp}
+		if rng.Intn(3) != 0 {
+			ru.IPF = optFilter(1)
+		}
+		for j := 1 + rng.Intn(2); j > 0; j-- {
+			var p gPath
+			switch rng.Intn(6) {
+			case 0, 1:
+				p = gPath{Prefix: "/admin"}
+			case 2, 3:
+				p = gPath{Path: fmt.Sprintf("/front%d", i)}
+			case 4: // conditional entry inside the shared vocabulary
+				if rng.Intn(2) == 0 {
+					p = gPath{Path: "/a", Methods: []string{"DELETE"}}
+				} else {
+					p = gPath{Prefix: "/b", Headers: []gHeader{{Key: "X-V", Values: []string{"canary"}}}}
+				}
+			default: // the front rule owns a part of the shared vocabulary itself
+				p = c12PickPath(rng, []gPath{{Prefix: "/b/a"}, {Path: "/a/b"}, {Regexp: `^/ab`}})
+			}
+			p.Backend = be()
+			ru.Paths = append(ru.Paths, p)
+		}
+		s.Rules = append(s.Rules, ru)
+	}
+	wide := c12PickRule(rng, []gRule{{}, {}, {}, {HostRegexp: `\.com$`}, {HostRegexp: `^[a-z.]+$`}, {HostRegexp: `^(a|b|x\.a)\.com?$`}})
+	wide.IPF = optFilter(3)
+	entries := []gPath{{Path: "/a"}, {Prefix: "/b"}, {Regexp: `^/(a|b)/(.*)$`}, {Prefix: "/a/"}, {Path: "/ab"}, {}}
+	rng.Shuffle(len(entries)-1, func(a, b int) { entries[a], entries[b] = entries[b], entries[a] }) // the match-all entry stays last
+	for _, p := range entries[:2+rng.Intn(2)] {
+		p.Backend = be()
+		if rng.Intn(4) == 0 {
+			p.Methods = []string{"GET", "POST"}
+		}
+		p.IPF = optFilter(4)
+		if rng.Intn(6) == 0 && (p.Path != "" || p.Prefix != "" || p.Regexp != "") {
+			p.Rewrite = "/r"
+		}
+		wide.Paths = append(wide.Paths, p)
+	}
+	s.Rules = append(s.Rules, wide)
+	if rng.Intn(3) == 0 {
+		s.Rules = append(s.Rules, gRule{IPF: optFilter(2), Paths: []gPath{{Prefix: "/", Backend: be()}}})
+	}
+	s.IPF = optFilter(5)
+	return s
+}
+
+func c12PickPath(rng *rand.Rand, ps []gPath) gPath { return ps[rng.Intn(len(ps))] }
+func c12PickRule(rng *rand.Rand, rs []gRule) gRule { return rs[rng.Intn(len(rs))] }
+
+// c12Step: one request of a shared-path history: a client-less shape, asked by a client.
+type c12Step struct {
+	shape gReq
+	ip    string
+	viaH  bool
+	role  string
+}
+
+// TestVerif_C12_SharedPath: K5 x K7 x K11: the SAME path entry reached through DIFFERENT hosts,
+// i.e. through different earlier host-matching rules and their IP filters.
+func TestVerif_C12_SharedPath(t *testing.T) {
+	r := kit.Start(t, "C12")
+	defer r.Finish()
+	r.Rule("ONE PATH ENTRY, SEVERAL HOSTS: seeded servers of 1-3 front rules whose host conditions (exact hosts, regexps, both) accept different subsets of the hosts {a.com, b.com, a.co, x.a.com, c.org, one of them also with a port}, two thirds of the front rules with a rule-level IP filter and one third without, their entries mostly outside the paths of the later rule (sometimes a method- or header-conditioned entry or an own entry inside that vocabulary), followed by one rule with a wide host condition (catch-all or wide regexp; with/without rule filter) that owns 2-3 header-less entries (exact, prefix, regexp, match-all; some with path filter, method list, rewriteTarget), sometimes a catch-all rule behind and a server-level filter; x cache sizes {1,2,8,64}; histories: per server 2 pairs of request shapes (host A, host B) that the reference router sends to the same entry of a later rule, 4 of 5 pairs chosen such that the earlier host-matching rules WITH a filter differ between A and B (either order: A walks through more filters than B, or fewer); a client the cache-less server admits for A asks A (fills), a client it admits for B asks B (other key, miss, fills), then B is asked by 5 random clients plus up to 2 clients which the cache-less server treats differently for A and for B (refused for one, served for the other), then A by 3 clients; now and then a random request in between (evictions at size 1); 8 random requests at the end; every response (status, backend, rewritten path) must equal the cache-less twin's for that very request; a run must contain cache hits on a route under host B's key after another host with a different list of earlier filters reached the same entry, by clients the cache-less server refuses for the first host but admits for this one, and by clients it admits for the first host but refuses for this one; distinct = (cache hit?, cached-entry kind, uncached status, other host with other earlier filters reached the entry before?, client treated differently for that host?, cache size)")
+	r.Assume("twin with cacheSize 0 is the oracle (it also tells, request by request, which clients a host admits: it keeps no state between requests); the reference router (IP filters ignored) and the spec's host conditions are used only to choose the histories and to label them, never for a verdict")
+	nSpecs := r.N(200, 8000)
+	sizes := []int{1, 2, 8, 64}
+	missing := map[string]bool{"gone": true}
+	for i := 0; i < nSpecs; i++ {
+		if !r.Mine(i) {
+			continue
+		}
+		rng := r.CaseRand(i)
+		spec := c12SharedPathSpec(rng)
+		cached := *spec
+		cached.CacheSize = sizes[rng.Intn(len(sizes))]
+		r.Case(i, map[string]interface{}{"kind": "shared-path", "spec": spec, "cacheSize": cached.CacheSize})
+		m0, err0 := buildMux(spec, &recMapper{missing: missing})
+		m1, err1 := buildMux(&cached, &recMapper{missing: missing})
+		if err0 != nil || err1 != nil {
+			r.Count("spec_rejected", 1)
+			r.Note("spec rejected: %v %v", err0, err1)
+			continue
+		}
+		panicked := false
+		plain := func(q gReq) gOut { // the cache-less server's answer (stateless)
+			var o gOut
+			if r.Guard("C12:nocache", map[string]interface{}{"spec": spec, "req": q}, func() { o = serve(m0, &q) }) {
+				panicked = true
+			}
+			return o
+		}
+		// earlier host-matching rules that carry a filter, for a request that ends in rule `upto`
+		frontMemo := map[string]string{}
+		frontSig := func(host string, upto int) string {
+			mk := fmt.Sprintf("%s|%d", host, upto)
+			if v, ok := frontMemo[mk]; ok {
+				return v
+			}
+			var b strings.Builder
+			for ri := 0; ri < upto; ri++ {
+				if ok, _ := refHostMatch(&spec.Rules[ri], host); ok && spec.Rules[ri].IPF != nil {
+					fmt.Fprintf(&b, "%d,", ri)
+				}
+			}
+			frontMemo[mk] = b.String()
+			return b.String()
+		}
+		// the shapes, grouped by the header-less entry the reference router sends them to
+		hosts := append([]string{}, c12SharedHosts...)
+		hosts = append(hosts, pick(rng, c12SharedHosts)+pick(rng, []string{":80", ":8080"}))
+		var shapes []gReq
+		groups := map[string][]gReq{}
+		var groupIDs []string
+		for _, h := range hosts {
+			for _, p := range []string{"/a", "/a/b", "/ab", "/b", "/b/a", "/a/x", "/zz", "/b/x/y", "/front0", "/admin/x"} {
+				for _, m := range []string{"GET", "POST", "DELETE"} {
+					if m != "GET" && rng.Intn(4) != 0 {
+						continue
+					}
+					q := gReq{Method: m, Host: h, Path: p}
+					shapes = append(shapes, q)
+					ref := refRoute(spec, &q, missing)
+					if ref.Rule < 1 || len(spec.Rules[ref.Rule].Paths[ref.PathIdx].Headers) > 0 {
+						continue
+					}
+					id := fmt.Sprintf("%d/%d", ref.Rule, ref.PathIdx)
+					if groups[id] == nil {
+						groupIDs = append(groupIDs, id)
+					}
+					groups[id] = append(groups[id], q)
+				}
+			}
+		}
+		type pair struct{ a, b gReq }
+		var diffPairs, samePairs []pair
+		for _, id := range groupIDs {
+			var upto int
+			fmt.Sscanf(id, "%d/", &upto)
+			g := groups[id]
+			for x := range g {
+				for y := range g {
+					if g[x].Host == g[y].Host {
+						continue
+					}
+					if frontSig(g[x].Host, upto) != frontSig(g[y].Host, upto) {
+						diffPairs = append(diffPairs, pair{g[x], g[y]})
+					} else {
+						samePairs = append(samePairs, pair{g[x], g[y]})
+					}
+				}
+			}
+		}
+		if len(diffPairs) == 0 {
+			r.Count("shared_path_specs_without_an_entry_reached_through_different_earlier_filters", 1)
+		}
+		randomStep := func(role string) c12Step {
+			return c12Step{shape: shapes[rng.Intn(len(shapes))], ip: pick(rng, genClients), viaH: rng.Intn(3) == 0, role: role}
+		}
+		admitted := func(shape gReq) string { // a client the cache-less server does not refuse for this shape
+			for _, k := range rng.Perm(len(genClients)) {
+				if plain(c12WithClient(shape, genClients[k], false)).Status != 403 {
+					return genClients[k]
+				}
+			}
+			return pick(rng, genClients)
+		}
+		var hist []c12Step
+		for n := 0; n < 2; n++ {
+			var pr pair
+			switch {
+			case len(diffPairs) > 0 && (rng.Intn(5) != 0 || len(samePairs) == 0):
+				pr = diffPairs[rng.Intn(len(diffPairs))]
+			case len(samePairs) > 0:
+				pr = samePairs[rng.Intn(len(samePairs))]
+			default:
+				continue
+			}
+			hist = append(hist, c12Step{shape: pr.a, ip: admitted(pr.a), viaH: rng.Intn(3) == 0, role: "host-A-fills"})
+			if rng.Intn(4) == 0 {
+				hist = append(hist, randomStep("in-between"))
+			}
+			hist = append(hist, c12Step{shape: pr.b, ip: admitted(pr.b), viaH: rng.Intn(3) == 0, role: "host-B-misses"})
+			if rng.Intn(4) == 0 {
+				hist = append(hist, randomStep("in-between"))
+			}
+			// clients the cache-less server treats differently for A and for B
+			var split []string
+			for _, ip := range genClients {
+				if (plain(c12WithClient(pr.a, ip, false)).Status == 403) != (plain(c12WithClient(pr.b, ip, false)).Status == 403) {
+					split = append(split, ip)
+				}
+			}
+			rng.Shuffle(len(split), func(a, b int) { split[a], split[b] = split[b], split[a] })
+			if len(split) > 2 {
+				split = split[:2]
+			}
+			bClients := split
+			for k := 0; k < 5; k++ {
+				bClients = append(bClients, pick(rng, genClients))
+			}
+			rng.Shuffle(len(bClients), func(a, b int) { bClients[a], bClients[b] = bClients[b], bClients[a] })
+			for _, ip := range bClients {
+				hist = append(hist, c12Step{shape: pr.b, ip: ip, viaH: rng.Intn(3) == 0, role: "host-B-again"})
+			}
+			for k := 0; k < 3; k++ {
+				hist = append(hist, c12Step{shape: pr.a, ip: pick(rng, genClients), viaH: rng.Intn(3) == 0, role: "host-A-again"})
+			}
+		}
+		for k := 0; k < 8; k++ {
+			hist = append(hist, randomStep("random"))
+		}
+		if panicked {
+			continue
+		}
+		// who reached which entry so far (requests the cache-less server did not refuse)
+		type reach struct {
+			shape gReq
+			front string
+		}
+		reached := map[string][]reach{}
+		var trace []map[string]interface{}
+		for _, st := range hist {
+			q := c12WithClient(st.shape, st.ip, st.viaH)
+			hit, cachedKind := muxCacheProbe(m1, &q)
+			var g0, g1 gOut
+			in := map[string]interface{}{"spec": spec, "cacheSize": cached.CacheSize, "req": q}
+			if r.Guard("C12:nocache", in, func() { g0 = serve(m0, &q) }) {
+				break
+			}
+			if r.Guard("C12:cache", in, func() { g1 = serve(m1, &q) }) {
+				break
+			}
+			r.Eval(1)
+			// label the step: did another host, which walks through other earlier filters, reach
+			// the entry of this request before, and does the cache-less server treat this client
+			// differently when it asks for that host
+			ref := refRoute(spec, &q, missing)
+			otherFront, treated := false, "same"
+			if ref.Rule >= 0 {
+				id := fmt.Sprintf("%d/%d", ref.Rule, ref.PathIdx)
+				front := frontSig(q.Host, ref.Rule)
+				for _, e := range reached[id] {
+					if e.shape.Host == q.Host || e.front == front {
+						continue
+					}
+					otherFront = true
+					if v := plain(c12WithClient(e.shape, st.ip, false)); (v.Status == 403) != (g0.Status == 403) {
+						if g0.Status == 403 {
+							treated = "refused-here-admitted-for-first-host"
+						} else {
+							treated = "admitted-here-refused-for-first-host"
+						}
+						break
+					}
+				}
+				if g0.Status != 403 {
+					reached[id] = append(reached[id], reach{shape: st.shape, front: front})
+				}
+			}
+			if hit {
+				r.Count("shared_path_cache_hits", 1)
+			}
+			if hit && cachedKind == "route" && otherFront {
+				r.Count("hits_on_route_after_other_host_with_other_earlier_filters_reached_the_entry", 1)
+				switch treated {
+				case "admitted-here-refused-for-first-host":
+					r.Count("such_hits_by_client_admitted_for_this_host_but_refused_for_the_first_host", 1)
+				case "refused-here-admitted-for-first-host":
+					r.Count("such_hits_by_client_refused_for_this_host_but_admitted_for_the_first_host", 1)
+				}
+			}
+			r.Cover(fmt.Sprintf("shared/hit=%v/%s/%d/otherfront=%v/%s/size=%d", hit, cachedKind, g0.Status, otherFront, treated, cached.CacheSize))
+			trace = append(trace, map[string]interface{}{"role": st.role, "req": q, "hit": hit, "nocache": g0, "cache": g1})
+			if g0.Status == g1.Status && g0.Backend == g1.Backend && g0.Path == g1.Path {
+				continue
+			}
+			kind := "other"
+			switch {
+			case !hit:
+				kind = "miss-path-differs"
+			case cachedKind == "route" && otherFront && g1.Status == 403 && g0.Status != 403:
+				kind = "cached-route-refuses-403-client-the-uncached-server-serves:same-entry-was-reached-before-by-other-host-through-other-earlier-rule-filters"
+			case cachedKind == "route" && otherFront && g0.Status == 403 && g1.Status != 403:
+				kind = "cached-route-serves-client-the-uncached-server-refuses-403:same-entry-was-reached-before-by-other-host-through-other-earlier-rule-filters"
+			case g0.Status == 403 && cachedKind == "route":
+				kind = "cached-route-skips-ip-filter-of-earlier-host-matching-rule"
+			case g0.Status == 403:
+				kind = "cached-" + cachedKind + "-served-to-client-the-uncached-server-refuses-403"
+			case g1.Status == 403 && cachedKind == "route":
+				kind = "cached-route-403-but-uncached-serves"
+			}
+			tail := trace
+			if len(tail) > 14 {
+				tail = tail[len(tail)-14:]
+			}
+			r.Violation("cache-not-transparent:shared-path:"+kind, map[string]interface{}{
+				"yaml": cached.YAML("verif"), "request": q, "step": st.role, "cache_hit": hit, "cached_entry": cachedKind,
+				"without_cache": g0, "with_cache": g1, "other_host_with_other_earlier_filters_reached_entry_before": otherFront,
+				"client_vs_first_host": treated, "history_tail": tail,
+			})
+		}
+		if i < 2 {
+			r.Sample(map[string]interface{}{"kind": "shared-path", "spec": spec, "cacheSize": cached.CacheSize, "trace_head": trace[:minInt(4, len(trace))]})
+		}
+		m0.close()
+		m1.close()
+	}
+	r.Require("hits_on_route_after_other_host_with_other_earlier_filters_reached_the_entry", 1)
+	r.Require("such_hits_by_client_admitted_for_this_host_but_refused_for_the_first_host", 1)
+	r.Require("such_hits_by_client_refused_for_this_host_but_admitted_for_the_first_host", 1)
+}
+
 // c12WithClient returns the request shape as asked by the given client (address given by
 // the connection or by X-Real-IP).
 func c12WithClient(shape gReq, ip string, viaHeader bool) gReq {
